@@ -1044,11 +1044,28 @@ func listsHandedOutStayInOrder(r *an.Run) int {
 				if !ok || (sl.Low == nil && sl.High == nil && sl.Max == nil) {
 					continue
 				}
-				if k, ok := isCompilerField(sl.X); ok {
-					if hi, isc := an.ConstInt(sl.High); isc && hi == 0 && sl.Low == nil {
-						continue // x.f[:0] is reported by the storage-reuse check
+				srcs := []ssa.Value{sl.X}
+				if p, isParam := sl.X.(*ssa.Parameter); isParam {
+					// a helper that cuts the piece out of the list it is handed: the list at its call sites
+					srcs = nil
+					for i, q := range f.Params {
+						if q != p {
+							continue
+						}
+						for _, c := range r.P.CallersOf(f) {
+							if c.Common().StaticCallee() == f && i < len(an.CallArgs(c)) {
+								srcs = append(srcs, an.CallArgs(c)[i])
+							}
+						}
 					}
-					handed[k] = an.Path(sl.X)
+				}
+				for _, src := range srcs {
+					if k, ok := isCompilerField(src); ok {
+						if hi, isc := an.ConstInt(sl.High); isc && hi == 0 && sl.Low == nil {
+							continue // x.f[:0] is reported by the storage-reuse check
+						}
+						handed[k] = an.Path(src)
+					}
 				}
 			}
 		}
